@@ -75,7 +75,8 @@
   LS × Ln, LS × LS             `lsContainsLine` (two-pass truncation loop), `lsContainsLs`    O   the specification side is P*
                                (`isContains_lineString_line`: the mask ⇔ every point of the segment is on the line string), so
                                the equality is reduced to that statement about the loop (`containsM_lineString_line_partial`);
-                               the loop invariant of `cutStep` is not proved
+                               one half is proved: the loop has no false positive (`containsM_lineString_line_sound`, invariant
+                               `Geo.Proofs.C02Y.Inv` of `cutStep`); "two passes always suffice on a simple line string" is not
   MPg × MPt                    `mpolyContainsMultiPoint` (no point Outside, one Inside)       P   `containsM_multiPolygon_multiPoint`
   MPg × {Ln LS Pg MLS MPg Rc Tr GC} (8 cells)  `rhs.relate(self).is_within()`                 P*  `containsM_multiPolygon_via_relate`
   Rc × Rc                      `rectContainsRect`                                             P   `containsM_rect_rect`
